@@ -1,6 +1,11 @@
 /-
 C08 — Same seed, same run: independent of evaluator, threads, scheduling and cloning.
 Property theorems only; helper lemmas are in `Proofs/C08.lean` (and `Proofs/C15.lean` for the export).
+
+What is PROVED here is schedule-independence of evaluation and of seed derivation ON THE MODEL. The
+property itself (rayon's real scheduler, cloned trait objects, reuse of a configuration object,
+process boundaries) is decided by exploration: digests of complete final states (see checklib/c08.py).
+There is no theorem for the cloning clause: the model has no mutable component state to copy.
 -/
 import MahfModel.Proofs.C08
 import MahfModel.Proofs.C15
@@ -8,35 +13,40 @@ namespace MahfModel.Props.C08
 open MahfModel.Determinism
 
 /-- Parallel evaluation equals sequential evaluation for EVERY completion order: writes go to
-distinct slots, the objective function is pure, and no draw is taken during evaluation (the
-evaluators have no generator argument). -/
+distinct slots, the objective function is pure (assumption), and no draw is taken during evaluation
+(the evaluators have no generator argument). -/
 theorem evalPar_eq_evalSeq {S O : Type} (f : S → O) (pop : List (Ind S O)) (sched : List Nat)
     (h : sched.Perm (List.range pop.length)) : evalPar f pop sched = pop.map (evalInd f) :=
   evalPar_eq f pop sched h
 
-/-- Lifted to runs: a run whose evaluation steps complete in arbitrary (legal) orders ends in the
-state of the sequential run — same populations, same best, same counters, same generator position. -/
+/-- What does depend on the schedule is only the ORDER in which the objective function is called:
+the completion-order record is a permutation of the sequential one. -/
+theorem eval_calls_perm {S O : Type} (pop : List (Ind S O)) (sched : List Nat)
+    (h : sched.Perm (List.range pop.length)) : (callsPar pop sched).Perm (pop.map (·.sol)) :=
+  callsPar_perm pop sched h
+
+/-- Runs of the step language (steps that draw from the generator between evaluations, push and merge
+populations, update the best individual, log): with every evaluation step completing in an
+arbitrary legal order, the final state — population stack, generator position, evaluation count,
+best individual, log — is that of the sequential run; only the order of the call record differs. -/
 theorem run_schedule_independent (f : Nat → Nat) (stream : Nat → Nat) (ops : List Op)
     (schs : List (List Nat)) (s : RunSt) (h : Legal f stream ops schs s) :
-    runPar f stream ops schs s = runSeq f stream ops s :=
-  runPar_eq f stream ops schs s h
+    SameUpToCallOrder (runPar f stream ops schs s) (runSeq f stream ops s) :=
+  runPar_rel f stream ops schs s s ⟨rfl, rfl, rfl, rfl, rfl, List.Perm.refl _⟩ h
 
-/-- Two runs from the same state with the same generator stream (same seed) agree, whatever the
-schedules of either. -/
-theorem same_seed_same_run (f : Nat → Nat) (stream : Nat → Nat) (ops : List Op)
-    (schs schs' : List (List Nat)) (s : RunSt)
-    (h : Legal f stream ops schs s) (h' : Legal f stream ops schs' s) :
-    runPar f stream ops schs s = runPar f stream ops schs' s := by
-  rw [runPar_eq f stream ops schs s h, runPar_eq f stream ops schs' s h']
-
-/-- `optimize_with` inserts the default generator iff the user's initialiser inserted none: a
-supplied generator is the one in the state. -/
-theorem user_rng_kept {G : Type} (userInit : Reg G → Reg G) (dflt : G) :
-    (∀ g, (userInit { random := none }).random = some g → (optimizeWith userInit dflt).random = some g) ∧
-    ((userInit { random := none }).random = none → (optimizeWith userInit dflt).random = some dflt) := by
-  constructor
-  · intro g hg; simp [optimizeWith, hg]
-  · intro hn; simp [optimizeWith, hn]
+/-- `optimize_with`: the run draws from the generator the user's initialiser put into the state —
+whatever the default (entropy-seeded) generator is; the default is used iff none was supplied; a
+failing initialiser means no run. -/
+theorem user_generator_decides_run {R : Type} (userInit : Reg → Except Unit Reg) (run : Rng → R) :
+    (∀ s g, userInit { random := none } = .ok s → s.random = some g →
+        ∀ dflt, optimizeWith userInit dflt run = .ok (run g)) ∧
+    (∀ s, userInit { random := none } = .ok s → s.random = none →
+        ∀ dflt, optimizeWith userInit dflt run = .ok (run dflt)) ∧
+    (∀ e, userInit { random := none } = .error e → ∀ dflt, optimizeWith userInit dflt run = .error e) := by
+  refine ⟨?_, ?_, ?_⟩
+  · intro s g hs hg dflt; simp [optimizeWith, hs, hg]
+  · intro s hs hn dflt; simp [optimizeWith, hs, hn]
+  · intro e he dflt; simp [optimizeWith, he]
 
 /-- Child generators are a deterministic function of the parent's stream and position: the i-th child
 is constructed from the parent's i-th next word, and deriving `k` children advances the parent by
@@ -48,17 +58,24 @@ theorem children_deterministic (ctor : Nat → Nat → Nat) (k : Nat) (r : Rng) 
   refine ⟨?_, h2⟩
   rw [h1, childSeeds_eq, List.map_map]; rfl
 
-/-- Equal parent seeds (equal streams, equal positions) give equal children. -/
-theorem equal_seeds_equal_children (ctor : Nat → Nat → Nat) (k : Nat) (r r' : Rng)
-    (hs : r.stream = r'.stream) (hp : r.pos = r'.pos) :
-    (children ctor k r).1 = (children ctor k r').1 := by
-  rw [(children_deterministic ctor k r).1, (children_deterministic ctor k r').1, hs, hp]
+/-- Different seeds, different streams — RELATIVE to the assumption that the constructor (ChaCha12
+seeding) maps different seeds to different streams: then children derived from pairwise different
+parent words have pairwise different streams. -/
+theorem children_pairwise_distinct (ctor : Nat → Nat → Nat) (hinj : ∀ a b, ctor a = ctor b → a = b)
+    (k : Nat) (r : Rng) (hw : ((List.range k).map (fun i => r.stream (r.pos + i))).Nodup) :
+    (((children ctor k r).1).map (·.stream)).Nodup := by
+  rw [(children_deterministic ctor k r).1, List.map_map]
+  have : ((fun c : Rng => c.stream) ∘ fun i => mkRng ctor (r.stream (r.pos + i)))
+      = (fun w => ctor w) ∘ fun i => r.stream (r.pos + i) := rfl
+  rw [this, ← List.map_map]
+  exact List.Pairwise.map _ (fun a b h e => h (hinj a b e)) hw
 
-/-- If the constructor maps different seeds to different streams (assumed of ChaCha, explored by the
-harness), children derived from different words have different streams. -/
-theorem child_streams_differ (ctor : Nat → Nat → Nat) (hinj : ∀ a b, ctor a = ctor b → a = b) (a b : Nat)
-    (h : a ≠ b) : (mkRng ctor a).stream ≠ (mkRng ctor b).stream :=
-  fun e => h (hinj a b e)
+/-- `par_experiment`: the file of (problem p, run r) holds the single run of problem p seeded with r —
+for every number of runs, every number of problems and every completion order of the jobs. -/
+theorem experiment_seed_independent {R : Type} (single : Nat → Nat → R) (runs nprob : Nat) (sched : List Nat)
+    (hs : sched.Perm (List.range (jobs runs nprob).length)) (p r : Nat) (hr : r < runs) (hp : p < nprob) :
+    fileOf (experiment single runs nprob sched) p r = some (single p r) :=
+  experiment_file single runs nprob sched hs p r hr hp
 
 /-- The exported per-step maps are hash maps: any iteration order of a step's entries decodes to the
 same name → value map (shared with C15). -/
@@ -74,9 +91,24 @@ example : ([2, 0, 3, 1] : List Nat).Perm (List.range ([⟨5, none⟩, ⟨6, some
   decide
 example : evalPar (fun x => x * x) [⟨5, none⟩, ⟨6, some 1⟩, ⟨7, none⟩, ⟨8, none⟩] [2, 0, 3, 1]
     = [⟨5, some 25⟩, ⟨6, some 36⟩, ⟨7, some 49⟩, ⟨8, some 64⟩] := by decide
-example : Legal (fun x => x + 1) (fun i => 3 * i + 2) [.spawn, .spawn, .eval, .perturb, .best, .eval]
-    [[1, 0], [0, 1]] ⟨[], 0, 0, none⟩ := by
-  simp [Legal, stepOther, evalSeq, modifyAt]; decide
+example : callsPar ([⟨5, none⟩, ⟨6, some 1⟩, ⟨7, none⟩, ⟨8, none⟩] : List (Ind Nat Nat)) [2, 0, 3, 1] = [7, 5, 8, 6] := by decide
+/-- a run that draws, evaluates two individuals in reverse order, selects, evaluates, merges, logs -/
+example : Legal (fun x => x + 1) (fun i => 5 * i + 1)
+    [.spawn, .spawn, .eval, .best, .log, .select, .perturb, .eval, .merge, .best, .log]
+    [[1, 0], [1, 0]] ⟨[], 0, 0, none, [], []⟩ := by
+  simp [Legal, stepOther, evalStepSeq, evalSeq, evalInd, setCur, cur, modifyAt]; decide
+example : (runPar (fun x => x + 1) (fun i => 5 * i + 1)
+    [.spawn, .spawn, .eval, .best, .log, .select, .perturb, .eval, .merge, .best, .log]
+    [[1, 0], [1, 0]] ⟨[], 0, 0, none, [], []⟩).calls = [6, 1, 22, 1] := by decide
+example : (runSeq (fun x => x + 1) (fun i => 5 * i + 1)
+    [.spawn, .spawn, .eval, .best, .log, .select, .perturb, .eval, .merge, .best, .log]
+    ⟨[], 0, 0, none, [], []⟩).calls = [1, 6, 1, 22] := by decide
+/-- a concrete constructor that maps different seeds to different streams -/
+example : ∀ a b : Nat, (fun seed i => seed * (i + 1) + i) a = (fun seed i => seed * (i + 1) + i) b → a = b := by
+  intro a b h; simpa using congrFun h 0
+example : ((List.range 3).map (fun i => (⟨fun i => 10 * i + 1, 2⟩ : Rng).stream (2 + i))).Nodup := by decide
 example : (children (fun seed i => seed + i) 3 ⟨fun i => 10 * i, 2⟩).1.map (fun c => c.stream 1) = [21, 31, 41] := by decide
+example : ([3, 0, 5, 1, 4, 2] : List Nat).Perm (List.range (jobs 3 2).length) := by decide
+example : fileOf (experiment (fun p seed => 100 * p + seed) 3 2 [3, 0, 5, 1, 4, 2]) 1 2 = some 102 := by decide
 
 end MahfModel.Props.C08
